@@ -9,6 +9,8 @@ pub mod fixgen;
 pub mod kesdrv;
 pub mod kesref;
 pub mod plexhist;
+pub mod eragen;
+pub mod pdgen;
 
 pub use ctx::{hex_short, hexs, Ctx, Tier};
 pub use prng::{fp, fp_mix, Rng};
